@@ -19,13 +19,13 @@ class Q:
     def __init__(s, name, harness, shim, defs=None, config='real', cxxdefs=(), unwind=8, unwindset=None,
                  models=('core', 'libc'), stubs=(), allow_aborts=(), ub=False, timeout=None, mem_gb=12,
                  tiers=('quick', 'thorough'), cbmc_extra=(), roots=None, noinline=False, bound=None,
-                 object_bits=None, replay=True, note=None, loops=(), hunwind=None):
+                 object_bits=None, replay=True, note=None, loops=(), hunwind=None, heap_cap=64):
         s.name = name; s.harness = harness; s.shim = shim; s.defs = dict(defs or {}); s.config = config
         s.cxxdefs = tuple(cxxdefs); s.unwind = unwind; s.unwindset = dict(unwindset or {})
         s.models = tuple(models); s.stubs = tuple(stubs); s.allow_aborts = tuple(allow_aborts); s.ub = ub
         s.timeout = timeout; s.mem_gb = mem_gb; s.tiers = tuple(tiers); s.cbmc_extra = tuple(cbmc_extra)
         s.roots = roots; s.noinline = noinline; s.bound = bound or {}; s.object_bits = object_bits
-        s.replay = replay; s.note = note
+        s.replay = replay; s.note = note; s.heap_cap = heap_cap   # capacity in bytes of every modelled heap block (vp_rt.h)
         s.hunwind = hunwind      # bound for loops of the harness and of the environment models (default: unwind)
         s.loops = tuple(loops)   # [(regex on the loop name 'function.N', bound)]: per-loop bounds; everything else gets `unwind`
 
@@ -132,7 +132,7 @@ def harness_roots(q, ll_text, defs):
 
 def all_defs(ctx, q):
     _, cfg = ctx.config(q.config)
-    d = {'VP_SSO': cfg['SSO'], 'VP_STACK': cfg['STACK'], 'VP_SSO_SIZE': cfg['SSO_SIZE']}
+    d = {'VP_SSO': cfg['SSO'], 'VP_STACK': cfg['STACK'], 'VP_SSO_SIZE': cfg['SSO_SIZE'], 'VP_HEAP_CAP': q.heap_cap}
     d.update(q.defs)
     return d
 
@@ -387,7 +387,7 @@ def do_check(pid, tier, only=None, keep=False, jobs=None, scratch=None):
                 elif not_repro:
                     r['unreproduced'] = sorted({fp['desc'] for fp in not_repro})
         # ---- report
-        rp_dir = os.path.join(VERIF, 'replays', pid);
+        rp_dir = os.path.join(os.environ.get('VP_REPLAY_DIR') or os.path.join(VERIF, 'replays'), pid)
         lines = []
         vio_files = []
         if violations:
@@ -430,7 +430,7 @@ def write_evidence(pid, tier, seed, mod, queries, results, violations, known_hit
         evals += r.get('n_props', 0) or 0
         if r['verdict'] in ('holds', 'cex') and r.get('witnesses_reached'): nontriv += 1
         steps += c.get('steps') or 0; clauses += c.get('clauses') or 0; vars_ += c.get('vars') or 0; solver_s += c.get('solver_s') or 0
-        qs.append({'query': q.name, 'harness': q.harness, 'shim': q.shim, 'config': q.config, 'defs': q.defs, 'unwind': q.unwind,
+        qs.append({'query': q.name, 'harness': q.harness, 'shim': q.shim, 'config': q.config, 'defs': q.defs, 'unwind': q.unwind, 'heap_block_capacity_bytes': q.heap_cap,
                    'verdict': r['verdict'], 'reason': r.get('reason') or None, 'assertions_checked': r.get('n_props'), 'assertions_proved': n_ok,
                    'witnesses': r.get('witnesses'), 'witnesses_reached': r.get('witnesses_reached'), 'wall_s': round(r.get('wall', 0), 2),
                    'solver_s': round(c.get('solver_s') or 0, 2), 'symex_steps': c.get('steps'), 'sat_variables': c.get('vars'), 'sat_clauses': c.get('clauses'),
@@ -461,8 +461,9 @@ def write_evidence(pid, tier, seed, mod, queries, results, violations, known_hit
             'exhaustive': False,
         },
     }
-    os.makedirs(os.path.join(VERIF, 'evidence'), exist_ok=True)
-    json.dump(ev, open(os.path.join(VERIF, 'evidence', pid + '.json'), 'w'), indent=1, default=str)
+    evdir = os.environ.get('VP_EVIDENCE_DIR') or os.path.join(VERIF, 'evidence')   # VP_EVIDENCE_DIR: mutant trials must not overwrite committed evidence
+    os.makedirs(evdir, exist_ok=True)
+    json.dump(ev, open(os.path.join(evdir, pid + '.json'), 'w'), indent=1, default=str)
 
 # ----------------------------------------------------------------------------- replay command
 def do_replay(path):
